@@ -1234,6 +1234,10 @@ func (e *boundsEngine) exprAt(pos token.Pos) string {
 			return types.ExprString(x)
 		case *ast.RangeStmt:
 			return "range " + types.ExprString(x.X)
+		case *ast.CallExpr:
+			if id, ok := x.Fun.(*ast.Ident); ok && id.Name == "make" {
+				return types.ExprString(x)
+			}
 		}
 	}
 	if len(path) > 0 {
@@ -1292,6 +1296,28 @@ func (e *boundsEngine) checkFunction(fn *ssa.Function) []boundOb {
 				}
 				ok, why := e.indexOK(x.X, x.Index, factsAt(b), in)
 				add(in, ok, why)
+			case *ssa.MakeSlice:
+				// make([]T, n[, c]) panics for a negative size
+				for _, sz := range []ssa.Value{x.Len, x.Cap} {
+					if sz == nil {
+						continue
+					}
+					if _, isC := core.ConstInt(sz); isC {
+						continue
+					}
+					f2 := factsAt(b)
+					ok := e.nonneg(sz, f2[0], in, 0, map[ssa.Value]bool{})
+					if !ok {
+						e.pathMode = true
+						ok = e.nonneg(sz, append(append([]fact{}, f2[1]...), f2[0]...), in, 0, map[ssa.Value]bool{})
+						e.pathMode = false
+					}
+					why := ""
+					if !ok {
+						why = "the size passed to make may be negative (makeslice panics)"
+					}
+					add(in, ok, why)
+				}
 			case *ssa.Slice:
 				if alloc, isAlloc := x.X.(*ssa.Alloc); isAlloc && x.Low == nil && x.High == nil {
 					_ = alloc
